@@ -109,7 +109,8 @@ class FwdResult:
         self.forwarders = []       # (body, [opcall infos])
         self.problems = []         # (body, msg)
         self.edges = {}            # body.path -> list of target descriptors
-        self.kind = {}             # body.path -> 'kernel' | 'forwarder'
+        self.opaque = {}           # body.path -> reason (forwarders routed through a new helper + closures)
+        self.kind = {}             # body.path -> 'kernel' | 'forwarder' | 'opaque'
 
 
 def analyse(crate):
@@ -127,6 +128,10 @@ def analyse(crate):
             continue
         res.kind[b.path] = "forwarder"
         probs, opcalls = check_forwarder(b)
+        if len(probs) == 1 and probs[0].startswith("<via-helper"):
+            res.kind[b.path] = "opaque"
+            res.opaque[b.path] = probs[0].strip("<>")
+            continue
         for p in probs:
             res.problems.append((b, p))
         res.forwarders.append((b, opcalls))
@@ -143,6 +148,8 @@ def analyse(crate):
             return memo[b.path]
         if b.path in stack:
             return "cycle through %s" % b.key
+        if res.kind.get(b.path) == "opaque":
+            return True         # not followed (reported as undecided on its own)
         if res.kind.get(b.path) == "kernel":
             ok = op_base(b.trait) == base
             memo[b.path] = True if ok else "kernel %s is of operator %s, not %s" % (b.key, op_base(b.trait), base)
@@ -198,8 +205,9 @@ def check_forwarder(b):
     allowed_ops = {m, m + "_assign"} if base != "Not" else {"not"}
     if base in ("Div", "Rem"):
         allowed_ops.add("div_rem")
-    helper = {"clone", "from", "try_from", "unwrap"}
+    helper = {"clone", "from", "try_from", "unwrap", "expect", "into", "try_into"}
     opcalls = []
+    via_helper = []
     for bb, t, fn in b.iter_calls():
         if fn is None:
             probs.append("indirect call in forwarder")
@@ -211,9 +219,15 @@ def check_forwarder(b):
             opcalls.append(dict(bb=bb, fn=fn, name=name, args=args, callee=mir.callee_qual(fn), dest=t["d"]))
         elif name in helper:
             continue
+        elif b.crate.new_helper(fn) is not None:
+            via_helper.append(b.crate.new_helper(fn).name)
         else:
             probs.append("unexpected call `%s` in a forwarder (allowed: one %s call, clone, integer lifting)"
                          % (mir.callee_qual(fn), "/".join(sorted(allowed_ops))))
+    if not opcalls and via_helper and not probs:
+        # the operator call sits in a closure handed to a dispatch helper introduced after the review
+        # (`self.with_inner(rhs, |b, r| b.op(r), ..)`): operand order is not extracted from closures
+        return ["<via-helper %s>" % ", ".join(sorted(set(via_helper)))], opcalls
     if not opcalls:
         probs.append("forwarder without an operator call of its own family")
         return probs, opcalls
